@@ -2,3 +2,4 @@ import CoxeterVerif.Scalar
 import CoxeterVerif.Vec
 import CoxeterVerif.Spec.Solid
 import CoxeterVerif.Model.ConvexPolyhedron
+import CoxeterVerif.Props.C01
